@@ -51,6 +51,13 @@ CLAIMED = {
             "Every field of every shipped type is exercised at each boundary value; the table is a separate artefact, so a change made to encoder "
             "and decoder together (tag number, length style, encoding, order, control field) is a mismatch.",
             "DESIGN.md 8 (C03)", TB),
+    "C04": ("model_checking",
+            "TLA+ reader/writer automaton (ZvtFraming + ZvtTransport) model-checked exhaustively with the short/extended switch at 2 (all "
+            "chunkings, all end-of-stream positions); simulated behaviours with the real switch replayed into the real read_packet; event "
+            "traces of the real reader over an instrumented source validated by TLC (TraceTransport)",
+            "All interleavings of chunk boundaries, Pending and EOF are explored on the model; the code is bound by trace validation of every "
+            "poll_read (capacity offered = bytes still needed) and delivery, for every body length 0..65535 in thorough.",
+            "DESIGN.md 8 (C04), 6", TB),
     "C13": ("model_checking",
             "TLC re-assembles reference-encoded tagged groups (Gen_C13: permutations, duplicates, removals, foreign tags) with the outcome the "
             "property demands; the real decoder runs on every case; TLC judges (TraceCodec P13 flags)",
